@@ -192,6 +192,9 @@ func suiteBytes(c *Ctx) {
 		if o1 == "readable" && encOK {
 			spi, out := node.Deliver(raw)
 			line := "0 deliver " + enc
+			if !node.enc.canonical(raw) {
+				line = "0 deliver-nc NC:" + enc
+			}
 			if spi != "" {
 				line += " " + spi
 			}
